@@ -51,11 +51,47 @@ static std::string Run()
    return log;
 }
 
+// second scenario: ordered index (C13), undrained queues + role mask in the dump (C06/C07), routed Message (C05), GETPARAMETERS
+static std::string Run2()
+{
+   std::string log;
+   L1World w;
+   w.GrantPrivilege(muscle::PR_PRIVILEGE_KICK, "hB");                       // sessions from host hB may kick (must precede Attach)
+   if (!w.Attach(0, "hA", 1) || !w.Attach(1, "hB", 2) || !w.Attach(2, "hB", 3)) return "attach failed";
+   w.Inject(1, Subscribe("/hA/*/n"));                                       // B watches A's index node n
+   w.Inject(0, SetData("n", EmptyPayload(7)));
+   MessageRef ins = InsertOrderedData(Keys("n")); AddData(ins, "append", Payload(10)); AddData(ins, "append", Payload(11));
+   w.Inject(0, ins);                                                        // two generated children I0, I1 (names depend on recycled DataNode state: F15)
+   std::vector<std::string> idx; w.IndexOf("/hA/1/n", idx);
+   log += "index has " + U32((uint32_t)idx.size()) + " entries\n";
+   if (idx.size() == 2) {
+      w.Inject(0, ReorderData("n/" + idx[1], idx[0]));                      // move the second before the first
+      log += "canonical path of the first generated child: " + w.CanonPath("/hA/1/n/" + idx[0]) + "\n";
+   }
+   std::vector<MessageRef> got = w.Drain(1);
+   for (size_t i = 0; i < got.size(); i++) {
+      std::vector<IndexOp> iops;
+      if (ParseIndexUpdated(got[i], iops)) for (size_t k = 0; k < iops.size(); k++) log += std::string("  B index op ") + iops[k].op + " at " + U32(iops[k].index) + " key " + w.CanonPath(iops[k].nodePath + "/" + iops[k].key) + "\n";
+      else log += "  B <- " + MsgText(got[i]) + "\n";
+   }
+   w.Inject(2, Keyed(1234, Keys("/hA/*/n")));                               // C routes a client-to-client Message to the owner of /hA/*/n
+   w.Inject(0, Ping(5));                                                    // A does not drain: both stay queued
+   DumpOpts o; o.queues = true; o.roleMask = (1u << 0);                     // only A's session and subtree
+   log += "--- dump restricted to A, with its undrained queue\n" + w.Dump(o);
+   log += "invariants: '" + w.CheckTreeInvariants() + "'\n";
+   w.Inject(2, Keyed(muscle::PR_COMMAND_KICK, Keys("/hA/*")));              // C kicks every session on host hA: A becomes a lame duck ...
+   const uint32_t gone = w.Step();                                          // ... and is detached by the next event-loop pass
+   log += "roles detached by the server: mask " + U32(gone) + ", A attached: " + (w.IsAttached(0) ? "yes" : "no") + "\n";
+   got = w.Drain(1);   // (the PR_RESULT_INDEXUPDATED that comes with it names the generated children by their raw, history-dependent names: not printed)
+   for (size_t i = 0; i < got.size(); i++) if (got[i]()->what == muscle::PR_RESULT_DATAITEMS) log += "  B <- " + MsgText(got[i]) + "   [after A was kicked]\n";
+   return log;
+}
+
 int main(int argc, char ** argv)
 {
    const bool verbose = (argc > 1);
-   std::string a = Run();
-   std::string b = Run();
+   std::string a = Run() + Run2();
+   std::string b = Run() + Run2();
    if (verbose || a != b) fputs(a.c_str(), stdout);
    int bad = 0;
    if (a != b) { printf("FAIL: second run differs from the first\n%s", b.c_str()); bad++; }
@@ -67,6 +103,16 @@ int main(int argc, char ** argv)
       "'/hA/1/x' d={1886483556 'v':i32=[3]} s={2:1}",
       "B <- {R_DATAITEMS '/hA/1/x':msg=[{1886483556 'v':i32=[4]}]}   [after A came back and set x=4]",
       "quiescent: '' invariants: ''",
+      "index has 2 entries",
+      "canonical path of the first generated child: /hA/1/n/I#0",
+      "B index op i at 0 key /hA/1/n/I#0",
+      "B index op i at 1 key /hA/1/n/I#1",
+      "B index op r at 1 key /hA/1/n/I#1",
+      "queued {1234 '!SnKy':str=['/hA/*/n']}",
+      "queued {R_PONG 'tag':i32=[5]}",
+      "'/hA/1/n' d={7} s={2:1} idx=['I#1','I#0']",
+      "roles detached by the server: mask 1, A attached: no",
+      "B <- {R_DATAITEMS '!SnRd':str=['/hA/1/n']}   [after A was kicked]",
    };
    for (size_t i = 0; i < sizeof(expect) / sizeof(expect[0]); i++) if (a.find(expect[i]) == std::string::npos) { printf("FAIL: expected line not found: %s\n", expect[i]); bad++; }
    printf("reflector_l1 selftest: %s\n", bad ? "FAILED" : "ok");
